@@ -23,7 +23,7 @@ func TestMain(m *testing.M) {
 		"pk + cofactor-torsion point, all single-bit flips, off-curve pairs, every truncation, over-long, coordinates >= p; plus round trips and pairing laws. " +
 		"non-trivial = the case contains an adversarial encoding that parses to a valid curve point or a bit flip (all Sig/Pubkey cases do); for round trips / pairing " +
 		"laws non-trivial = scalar >= 2^64. Receiver-history tests: the same byte strings parsed into receivers with 10-14 generated prior histories per parse entry point " +
-		"(non-trivial = accepted well-formed point into a non-fresh receiver). distinct by (law, key, message) and, for valid-point candidates, by (family/history, candidate bytes)")
+		"(non-trivial = accepted well-formed point into a non-fresh receiver). Secret-key magnitude tests: held integer drawn by magnitude class x constructor (non-trivial = held value >= 2^64). distinct by (law, key, message) and, for valid-point candidates, by (family/history, candidate bytes)")
 	stats.Assume("reference = affine big.Int arithmetic for the BN256 curve / twist in internal/ref/bn256.go (p, n derived from u; generator of G2 and the hash-to-point " +
 		"taken from the implementation as scheme parameters); BLS uniqueness: for pk = sk*g2 the only G1 element s with e(s,g2)=e(H(m),pk) is sk*H(m)")
 	stats.Assume("public keys: the statement fixes the key as a group element, so a non-canonical byte string that denotes the SAME element (pk||junk, coordinate+p) is " +
